@@ -17,9 +17,12 @@ package zenodb
 import (
 	"time"
 
+	"github.com/getlantern/bytemap"
+	"github.com/getlantern/goexpr"
 	"github.com/getlantern/wal"
 	"github.com/getlantern/zenodb/common"
 	"github.com/getlantern/zenodb/core"
+	"github.com/getlantern/zenodb/encoding"
 )
 
 //zx:group leader
@@ -27,15 +30,16 @@ import (
 //zx:replace (*github.com/getlantern/zenodb.DB).startParallelEntryProcessing zxStartPEP
 
 type zxFollowCall struct {
-	stream string
-	offset wal.Offset
+	stream     string
+	offset     wal.Offset
+	partitions map[string]*partitionSpec
 }
 
 var zxFollowCalls []zxFollowCall
 var zxPEPResults chan *partitionsResult
 
 func zxFollowWAL(db *DB, stream string, offset wal.Offset, partitions map[string]*partitionSpec, requests chan *partitionRequest) (func(), error) {
-	zxFollowCalls = append(zxFollowCalls, zxFollowCall{stream, offset})
+	zxFollowCalls = append(zxFollowCalls, zxFollowCall{stream, offset, partitions})
 	return func() {}, nil
 }
 
@@ -132,3 +136,77 @@ func zxC12Leader() {
 }
 
 var _ = time.Second
+
+// C10.W / C15.W — the leader pre-filters the WAL for its followers with each table's WHERE. After a
+// follower has joined (real processFollowers, as in C12.F) the table's WHERE is changed the way
+// ApplySchema / Alter do it (table.applyWhere); a point is then mapped by the real
+// mapPartitionRequest over the partition specs the leader's WAL reader was started with. A
+// point that the WHERE in force now admits must be passed on — a stand-alone node applies the
+// current WHERE to every point (table.doInsert reads getWhere), so a cluster must hold it too.
+//
+//zx:harness prop=C10+C15 id=C10.W tier=quick env=leader replay=interp
+func zxC10LeaderWhere() {
+	t, _ := zxTable(core.Fields{core.PointsField, zxFieldA})
+	db := t.db
+	db.opts.ID = 7
+	db.opts.NumPartitions = 1
+	db.opts.MaxFollowQueue = 8
+	db.tables["t"] = t
+	db.followerJoined = make(chan *follower, 2)
+	zxFollowCalls = nil
+	zxPEPResults = make(chan *partitionsResult, 4)
+	whereA, _ := goexpr.Binary("=", goexpr.Param("k"), goexpr.Constant("A"))
+	whereAB, _ := goexpr.Binary("OR", whereA, mustBinary("=", goexpr.Param("k"), goexpr.Constant("B")))
+	wheres := []goexpr.Expr{nil, whereA, whereAB}
+	before := wheres[vrtShape("before", len(wheres))]
+	after := wheres[vrtShape("after", len(wheres))]
+	t.applyWhere(before)
+	f := &follower{Follow: common.Follow{FollowerID: common.FollowerID{Partition: 0, ID: 1}, Stream: "inbound",
+		Partitions: map[string]*common.Partition{"k": {Keys: []string{"k"}, Tables: []*common.PartitionTable{{Name: "t", Offsets: common.OffsetsBySource{}}}}}},
+		db: db, entries: make(chan *walEntry, 8)}
+	stop := make(chan interface{})
+	go func() { db.followerJoined <- f }()
+	go func() { close(stop) }()
+	db.processFollowers(stop)
+	vrtAssert(len(zxFollowCalls) == 1, "the WAL reader is started for the joined follower")
+	if len(zxFollowCalls) != 1 {
+		return
+	}
+	// the schema is re-applied with another WHERE
+	t.applyWhere(after)
+	kval := []string{"A", "B", "C"}[vrtShape("k", 3)]
+	dims := bytemap.New(map[string]interface{}{"k": kval})
+	data := make([]byte, 8+4+len(dims)+4)
+	encoding.EncodeTime(data, zxNow)
+	encoding.WriteInt32(data[8:], len(dims))
+	copy(data[12:], dims)
+	mapped := make(chan *partitionsResult, 1)
+	db.mapPartitionRequest(partitionHash(), &partitionRequest{partitions: zxFollowCalls[0].partitions, entry: &walEntry{stream: "inbound", data: data, offset: wal.NewOffset(1, 1)}}, mapped)
+	vrtAssert(len(mapped) == 1, "the entry is mapped")
+	if len(mapped) != 1 {
+		return
+	}
+	res := <-mapped
+	pr := res.partitions["k"]
+	vrtAssert(pr != nil, "the follower's partition spec is evaluated")
+	if pr == nil {
+		return
+	}
+	want := after == nil || after.Eval(dims).(bool)
+	// a point that the leader passes on although the current WHERE rejects it is filtered again by
+	// the follower's own table.insert; one that it withholds is lost to the cluster for good
+	vrtAssert(vrtImplies(want, pr.wherePassed["t"]), "the leader does not withhold a point with k="+kval+" that the table's current WHERE admits ("+zxExprString(after)+"; it was "+zxExprString(before)+" when the follower joined)")
+	vrtReach("C10.W")
+}
+
+func mustBinary(op string, l, r goexpr.Expr) goexpr.Expr {
+	e, _ := goexpr.Binary(op, l, r)
+	return e
+}
+
+func zxExprString(e goexpr.Expr) string {
+	if e == nil {
+		return "none"
+	}
+	return e.String()
+}
